@@ -30,6 +30,7 @@ import Rooc.Proofs.LinExamples
 import Rooc.Proofs.LinMain
 import Rooc.Proofs.LinCounter
 import Rooc.Proofs.LinBridgeCounter
+import Rooc.Proofs.LinDExamples2
 namespace Rooc.Props.C01
 open Rooc Rooc.Lin
 open Rooc.Lin.Gadget (B01 DomMax DomMin)
@@ -648,5 +649,128 @@ theorem c01_int_box_counterexample :
       exact ⟨⟨⟨5, by norm_num⟩, by norm_num⟩, by norm_num⟩) (by norm_num) (by norm_num)
 
 end Bridge
+
+/-! ## Stage D end to end — logic values and bare assertions (the loop, `lower_logic_assertion`,
+`try_lower_affine_logic_assertion`, `directional_logic_witness`, `try_normalize_logic_constraint`)
+
+No syntactic fragment is left: the theorems hold for EVERY model on which the compilation succeeds, under a
+semantic contract on the source expressions.  Vocabulary (`Rooc/Proofs/LinD2.lean`, `LinD4.lean`, `LinD5.lean`,
+`LinD10.lean`, `LinD11.lean`, `LinBridgeLogic.lean`):
+* `GoodE d e` — the contract on a source expression `e` over the domains `d`: every variable is declared with a
+  usage mark; every literal is finite (`finiteLits`, syntactic); and at EVERY ASSIGNMENT THAT SATISFIES `d`:
+  `e` is defined (`DefOn`), and the operands of every `and`/`or` node are 0/1-valued (`LOon` = C10's
+  `LogicOperands01`).  `operandsOK d e` is a decidable syntactic sufficient condition for the last clause
+  (every and/or operand is a logic value in the sense of the linearizer's own `is_logic_value`).
+* `LogicModel m d` — objective and both sides of every constraint (comparison or bare assertion) are `GoodE d`.
+  Every `FragModel` is a `LogicModel`.
+* `HasTruth e t ρ` — `e` evaluates to `1` (`t = true`) / `0` (`t = false`) at `ρ`;
+  `AssertOK d0 s s' e t` — the loop state `s'` has, up to fresh auxiliaries, exactly the solutions of `s` at
+  which `e` has truth `t` (sound and complete), the loop invariant is kept, and `e` is 0/1-valued on solutions;
+  `DirOK d0 s s' e t x` — `x` is an affine 0/1 expression that can be `1` only where `e` has truth `t` and that can
+  be made `1` wherever it has (a directional witness).
+* `AssertShape m` — a bare assertion is stored as `lhs = 1` (what the front end produces; bound inference reads
+  it that way). -/
+
+section StageD
+variable [FloorRing K]
+open Rooc.BoundsProofs
+
+/-- **`try_lower_affine_logic_assertion`**: it either leaves the state alone and answers `false`, or lowers the
+assertion "the truth of `e` is `t`" to one affine row, soundly and completely. -/
+theorem try_lower_affine_spec {d0 : List (DomVar (Ext K))} (e : Exp (Ext K)) (t : Bool) (name : String)
+    (s : St (Ext K)) (b : Bool) (s' : St (Ext K)) (hinv : LoopInvD d0 s)
+    (hsc : ∀ x ∈ varsOf e, inScope s.domain x) (h : tryLowerAffine e t name s = .ok (b, s')) :
+    (b = false → s' = s) ∧ (b = true → AssertOK d0 s s' e t) :=
+  tryLowerAffine_spec e t name s b s' hinv hsc h
+
+/-- **`directional_logic_witness`** on every formula (and / or / not / implies / iff / xor, any nesting, both
+polarities, affine shortcuts included): on success the returned expression is a directional witness. -/
+theorem directional_witness_spec {d0 : List (DomVar (Ext K))} (e : Exp (Ext K)) (t : Bool) (s : St (Ext K))
+    (x : Exp (Ext K)) (s' : St (Ext K)) (hinv : LoopInvD d0 s) (hsc : ∀ y ∈ varsOf e, inScope s.domain y)
+    (hfin : FinE e) (hdef : DefOn s.domain e) (h : dirWitness e t s = .ok (x, s')) : DirOK d0 s s' e t x :=
+  dirWitness_spec e t s x s' hinv hsc hfin hdef h
+
+/-- **`lower_logic_assertion`** on every formula: on success the new state has — up to the auxiliaries —
+exactly the solutions of the old one at which `e` has the truth value `t`. -/
+theorem lower_assertion_spec {d0 : List (DomVar (Ext K))} (e : Exp (Ext K)) (t : Bool) (name : String)
+    (s s' : St (Ext K)) (hinv : LoopInvD d0 s) (hsc : ∀ y ∈ varsOf e, inScope s.domain y)
+    (hfin : FinE e) (hdef : DefOn s.domain e) (h : lowerAssertion e t name s = .ok ((), s')) :
+    AssertOK d0 s s' e t :=
+  lowerAssertion_spec e t name s s' hinv hsc hfin hdef h
+
+/-- the loop on models with logic: it empties the queue and — up to fresh auxiliaries — keeps exactly the
+solutions. -/
+theorem drain_logic_sound_complete {d0 : List (DomVar (Ext K))} (n : Nat) (s : St (Ext K)) (r : Unit × St (Ext K))
+    (hinv : LoopInvD d0 s) (h : drain n s = .ok r) :
+    LoopInvD d0 r.2 ∧ r.2.queue = [] ∧
+    (∀ ρ : String → K, Sat ρ r.2 → Sat ρ s) ∧
+    (∀ ρ : String → K, Sat ρ s → ∃ ρ' : String → K, (∀ x, inScope s.domain x → ρ' x = ρ x) ∧ Sat ρ' r.2) := by
+  obtain ⟨h1, h2, h3⟩ := drainD n s r hinv h
+  exact ⟨h1, h2, fun ρ hs => (h3.sound ρ hs).1, fun ρ hs => h3.complete ρ hs trivial⟩
+
+/-- **C01 for models with logic values and bare assertions** (every connective as a value inside arithmetic,
+comparisons of a logic value against a constant, bare assertions of nested formulas, together with everything
+`c01_partial` covers): for EVERY model that compiles and satisfies the contract, an assignment is
+source-feasible iff it extends, on the compiler's auxiliaries only, to a feasible point of the linear model.
+
+`_partial`: the excluded region is (i) models with an `and`/`or` operand that is not 0/1-valued on the domains
+(`c01_logic_counterexample`: C10's known finding), (ii) sides undefined at an assignment satisfying the domains
+(`c01_defined_counterexample`).  `DomRel`/`BoxEnforced` as in `c01_partial`; they are discharged for the whole
+pipeline in `c01_compile_logic_partial`. -/
+theorem c01_logic_partial {m : Model (Ext K)} {b : BoundsMap (Ext K)} {d : List (DomVar (Ext K))}
+    {lm : LinModel (Ext K)} (h : linearizeWith m b d = .ok lm)
+    (hm : LogicModel m d) (hdom : DomRel m d) (hbox : BoxEnforced b d) (ρ : String → K) :
+    srcFeasible m ρ = true ↔
+      ∃ ρ' : String → K, (∀ x, inScope d x → ρ' x = ρ x) ∧ linFeasible lm ρ' = true :=
+  logic_feasible_iff hm hdom hbox h ρ
+
+/-- **C01 for the whole pipeline `Compile.linearize`, models with logic**: every tolerance `0 ≤ t < 1` (or any
+`t ≥ 0` without `IntegerRange` variables), every step limit; no hypothesis on computed data. -/
+theorem c01_compile_logic_partial {m : Model (Ext K)} {t : K} (ht : 0 ≤ t) {maxSteps : Nat} {lm : LinModel (Ext K)}
+    (h : Compile.linearize m (.fin t) maxSteps = .ok lm)
+    (hm : LogicModel m m.domain) (hsh : AssertShape m) (hok : DeclOK m.domain)
+    (ht1 : t < 1 ∨ NoIntVars m.domain) (ρ : String → K) :
+    srcFeasible m ρ = true ↔
+      ∃ ρ' : String → K, (∀ x, inScope m.domain x → ρ' x = ρ x) ∧ linFeasible lm ρ' = true :=
+  compile_feasible_iff_logic ht h hm hsh hok ht1 ρ
+
+/-- a decidable sufficient condition for the and/or clause of the contract. -/
+theorem logic_operands_check {d : List (DomVar (Ext K))} (hnd : (d.map (·.name)).Nodup) {e : Exp (Ext K)}
+    (h : operandsOK d e = true) (hsc : ∀ y ∈ varsOf e, inScope d y) : LOon d e :=
+  loOn_of_operandsOK hnd h hsc
+
+/-- the piecewise-linear fragment is a special case. -/
+theorem logicModel_of_fragModel {m : Model (Ext K)} {d : List (DomVar (Ext K))} (h : FragModel true m d) :
+    LogicModel m d := LogicModel.ofFragModel h
+
+/-- non-vacuity with real logic: `min a s.t. assert (a or b)`, `a`, `b` Boolean compiles (the assertion becomes the
+row `a + b ≥ 1`) and satisfies every hypothesis of `c01_logic_partial`. -/
+example : ∃ (m : Model (Ext K)) (b : BoundsMap (Ext K)) (d : List (DomVar (Ext K))) (lm : LinModel (Ext K)),
+    linearizeWith m b d = .ok lm ∧ LogicModel m d ∧ DomRel m d ∧ BoxEnforced b d := by
+  obtain ⟨lm, h⟩ := exOr_ok (K := K)
+  exact ⟨exOr, [], exOr.domain, lm, h, exOr_logicModel, exOr_domRel, exOr_box⟩
+
+/-- non-vacuity through the whole pipeline (every tolerance, step limit 0). -/
+example (t : K) : ∃ (m : Model (Ext K)) (lm : LinModel (Ext K)),
+    Compile.linearize m (.fin t) 0 = .ok lm ∧ LogicModel m m.domain ∧ AssertShape m ∧ DeclOK m.domain ∧
+      NoIntVars m.domain := by
+  obtain ⟨lm, h⟩ := exOr_compile (K := K) (.fin t)
+  exact ⟨exOr, lm, h, exOr_logicModel, exOr_assertShape, exOr_declOK, exOr_noInt⟩
+
+/-- **Counterexample for the excluded region** (the and/or clause `LOon` of the contract dropped — C10's known
+finding seen from C01): `min x s.t. c: (x and 1) = 3`, `x ∈ Real(0, 4)`.  `simplify` drops the operand `1`, what
+is left is the non-Boolean `x`, and the row is `x = 3`: the linear model has the feasible point `x = 3`, the
+source model has none (`x and 1` is 0 or 1).  Every other hypothesis of `c01_logic_partial` holds. -/
+theorem c01_logic_counterexample :
+    ∃ (m : Model (Ext K)) (b : BoundsMap (Ext K)) (d : List (DomVar (Ext K))) (lm : LinModel (Ext K))
+      (ρ : String → K),
+      linearizeWith m b d = .ok lm ∧ DomRel m d ∧ BoxEnforced b d ∧
+      (∀ c ∈ m.constraints, (∀ y, (y ∈ varsOf c.lhs ∨ y ∈ varsOf c.rhs) → inScope d y) ∧ FinE c.lhs ∧ FinE c.rhs ∧
+        DefOn d c.lhs ∧ DefOn d c.rhs ∧ LOon d c.rhs) ∧
+      GoodE d m.objective ∧
+      linFeasible lm ρ = true ∧ ∀ ρ' : String → K, ¬ srcFeasible m ρ' = true :=
+  lo_needed
+
+end StageD
 
 end Rooc.Props.C01
